@@ -2,7 +2,7 @@ CONSTANTS
   Mode = "bytes"
   Alpha = {48, 49, 57, 46, 101, 69, 43, 45, 95}
   MaxLen = 5
-  First = {48, 49, 57, 46, 101, 69, 43, 45, 95}
+  First = {49}
 INIT Init
 NEXT Next
 INVARIANTS Laws Emit
